@@ -27,6 +27,8 @@ CLAIMED = {
             'two recorded errata of the RST tree are applied before comparison (DESIGN.md C10)'),
     'C11': ('Lean 4 theorems for every byte string: a line is accepted iff it is a rendering of a grammatical header, options reported verbatim with int() conversion; exhaustive enumeration over an 18-symbol alphabet against the real reader',
             "Python int() accepts '_' in digit strings: known finding D18 (witness proved in Lean, replayed every run)"),
+    'C13': ('Lean 4 theorems: exact file counts for every diff assembled from well-formed hunks with garbage between them and any unbordered newline (composition of the split_lines and hunk-parser theorems), skipped diffs leave the file unchanged, merge preserves other keys, change / top level report sums of what their children report, only metadata is touched, generation is idempotent; multibyte-encoding witness (D15) proved; random trees with ground truth by construction against the real generate_stats',
+            'known finding D15: diffs in encodings that are not ASCII-compatible count 0'),
     'C14': ('Lean 4 theorems for every hunk sequence / every line list: exact geometry for well-formed hunks with and without garbage tolerance, positioned MalformedHunkError for damage and premature end, no other outcome; exhaustive line lists + constructive generator against the real parser',
             'the hunk-header regex is hand-translated (Hunks.matchHeader) and validated against CPython re'),
     'C16': ('Lean 4 theorems about the executable model of split_lines for all inputs and all non-empty unbordered newlines; exhaustive bounded correspondence run on every check',
